@@ -948,3 +948,41 @@ Proof.
          (fun _ s => (s "mCounter", fun m => if String.eqb m "mCounter" then S (s m) else s m)).
   split; [reflexivity|vm_compute; discriminate].
 Qed.
+
+(** * flattenModel: the result is a new object, the argument is only read *)
+Theorem flatten_result_is_a_clone : GlobalSites.flatten_result_exprs = ["model->clone()"].
+Proof. vm_compute. reflexivity. Qed.
+
+Theorem flatten_argument_only_read :
+  flatten_reads_argument_only GlobalSites.flatten_calls GlobalSites.flatten_model_passed = true.
+Proof. vm_compute. reflexivity. Qed.
+
+(** linkUnits (the statement that repairs unlinked units) is applied to the clone *)
+Theorem flatten_links_the_clone :
+  filter (fun rm => String.eqb (snd rm) "linkUnits") GlobalSites.flatten_calls = [("flatModel", "linkUnits")].
+Proof. vm_compute. reflexivity. Qed.
+
+Lemma next_id_mono : forall l v, next_id v <= next_id (fold_left act l v).
+Proof.
+  induction l as [|a r IH]; intros v; [cbn; lia|]. cbn [fold_left].
+  specialize (IH (act v a)).
+  assert (K : next_id v <= next_id (act v a)) by (destruct a; cbn; lia).
+  lia.
+Qed.
+
+Theorem result_is_new_object : forall (s : svc) (w : world) (old : nat),
+  (forall i, i < next_id w -> i <> result_object w)
+  /\ result_object w < next_id (run w (actions_of (next_id w) old (service_writes true true s))).
+Proof.
+  intros s w old. split; [unfold result_object; intros i H E; subst i; lia|].
+  unfold result_object, actions_of, run. cbn [fold_left].
+  match goal with |- _ < next_id (fold_left act ?l ?v) => pose proof (next_id_mono l v) as G end.
+  assert (K : next_id (act w Alloc) = S (next_id w)) by reflexivity.
+  lia.
+Qed.
+
+(** every observation of every pre-existing object — content, references, status predicates — is unchanged *)
+Theorem services_preserve_every_observation : forall (X : Type) (f : observation X) (s : svc) (w : world) (old i : nat),
+  i < next_id w ->
+  f (content (run w (actions_of (next_id w) old (service_writes true true s))) i) = f (content w i).
+Proof. intros X f s w old i H. rewrite services_do_not_mutate by exact H. reflexivity. Qed.
